@@ -16,7 +16,7 @@ from ..core import rule, AnalysisError
 from ..engine import rx, flow, cfg as cfgmod
 from ..engine import pattern as P
 from ..engine.facts import dotted, const, src, walk_func, str_value, enclosing_stmt, ancestors
-from .common import calls, in_try_handling, contains, stmt_nodes, pn, access_paths, assigned_from
+from .common import calls, in_try_handling, contains, stmt_nodes, pn, access_paths, assigned_from, guards_of, arms, branch_paths
 
 
 def _precedence(e):
@@ -209,16 +209,23 @@ def render_encoding(ctx):
     """render() encodes iff output_encoding is set, render_unicode() ignores it, and no value of type str|bytes reaches a text-mode stream unconverted"""
     db = ctx.db
     rn = db.func("runtime._render")
-    ifs = [i for i in rn.body if isinstance(i, ast.If) and src(i.test) == "as_unicode"]
-    if not ifs:
+    asu = "as_unicode"
+    febs = [c for c in walk_func(rn) if isinstance(c, ast.Call) and (dotted(c.func) or "").endswith("FastEncodingBuffer")]
+    t = [c for c in febs if (asu, True) in guards_of(c, rn)]
+    e = [c for c in febs if (asu, False) in guards_of(c, rn)]
+    if not t or not e or len(febs) != len(t) + len(e):
         ctx.violation("unicode-buffer", db.where(rn), "_render does not select an unencoded buffer when as_unicode is set: render_unicode() applies output_encoding")
         return
-    i = ifs[0]
-    t = [c for c in ast.walk(ast.Module(body=i.body, type_ignores=[])) if isinstance(c, ast.Call) and (dotted(c.func) or "").endswith("FastEncodingBuffer")]
-    e = [c for c in ast.walk(ast.Module(body=i.orelse, type_ignores=[])) if isinstance(c, ast.Call) and (dotted(c.func) or "").endswith("FastEncodingBuffer")]
+    i = t[0]
     ctx.check(bool(t) and not t[0].args and not t[0].keywords, "unicode-buffer", db.where(i), "render_unicode's buffer is given an encoding", "unencoded buffer for render_unicode")
     kw = {k.arg: src(k.value) for k in (e[0].keywords if e else [])}
+    if e and e[0].args and not kw:
+        kw = dict(zip(["encoding", "errors"], [src(a_) for a_ in e[0].args]))
     ctx.check(kw == {"encoding": pn(rn, 0) + ".output_encoding", "errors": pn(rn, 0) + ".encoding_errors"}, "encoded-buffer", db.where(i), "render's buffer built with %s" % kw, "encoding=output_encoding, errors=encoding_errors")
+    # the chosen buffer is the one the context writes to
+    cx_ = [c for c in walk_func(rn) if isinstance(c, ast.Call) and dotted(c.func) == "Context"]
+    bufv = assigned_from(rn, "$a if %s else $b" % asu)
+    ctx.check(bool(cx_) and cx_[0].args and (src(cx_[0].args[0]) in bufv or isinstance(cx_[0].args[0], ast.IfExp)), "buffer-used", db.where(rn), "the Context is not built on the selected buffer", "Context(selected buffer, **data)")
     gv = db.func("util.FastEncodingBuffer.getvalue")
     gi = [x for x in gv.body if isinstance(x, ast.If)]
     ok = bool(gi) and src(gi[0].test) == "self.encoding" and ".encode(self.encoding, self.errors)" in src(gi[0].body[0]) and "encode" not in src(ast.Module(body=gi[0].orelse, type_ignores=[]))
